@@ -20,7 +20,7 @@ import os
 from pathlib import Path
 
 VERIF = Path(__file__).resolve().parent.parent
-GEN = VERIF / "lean" / "InfernoVerif" / "Gen"
+GEN = Path(os.environ.get("VERIF_LEAN_DIR", VERIF / "lean")) / "InfernoVerif" / "Gen"
 REPO = Path(os.environ.get("VERIF_REPO", "/repo")).resolve()
 
 RESERVED = {"max", "min", "range", "at", "from", "end", "open", "in", "fun", "then", "else", "if",
